@@ -34,6 +34,8 @@
     divide_default_names, annotate_none_is_default, annotate_map_priority, setmin_default_noop, setmin_ge,
     commentTargets_default/_given, autoLength_default/_ge, topologiesNbTips_input/_default,
     writes_all_modelled (table (e) Gen/C19Writes.lean: every post-parse assignment to an option variable is modelled)
+  Table (f) Gen/C19Changed.lean (every `Flags().Changed` test in a command body): Glue.changed_all_accounted;
+    `gotree repopulate` (fixed by 4cde097): Repopulate.accepts_explicit_default, acceptsPinned_explicit_default_fails
   `gotree brlen setrand` (open finding F55 / SetrandMeanRangeGiven): Setrand.meanRange_explicit_default_partial, …_defaults_fails
 -/
 import Gotree.Lemmas.C19
@@ -42,6 +44,7 @@ import Gotree.Lemmas.C19Rename
 import Gotree.Model.C19PreRun
 import Gotree.Model.C19Glue
 import Gotree.Gen.C19Writes
+import Gotree.Gen.C19Changed
 
 namespace Gotree.C19
 
@@ -610,6 +613,25 @@ theorem topologiesNbTips_default (n : Int) : topologiesNbTips n none = n := rfl
 theorem writes_all_modelled : Gotree.Gen.C19Writes.writes.all isModelled = true ∧ Gotree.Gen.C19Writes.problems = [] := by
   decide +kernel
 
+/-- table (f), regenerated from the source each run: every test of whether an option was GIVEN
+    (`Flags().Changed`) is accounted for by a model of that command's cascade and a recorded finding
+    (a new one makes this decision fail: it is a place where the flag table cannot speak for the
+    "same effect" clause) -/
+theorem changed_all_accounted : Gotree.Gen.C19Changed.sites.all isAccounted = true ∧ Gotree.Gen.C19Changed.problems = [] := by
+  decide +kernel
+
 end Glue
+
+/-! ### `gotree repopulate`: refuses the sentinel "none" (by value since fix 4cde097) -/
+
+namespace Repopulate
+
+/-- spelling the documented default out is the same as omitting the option, whether or not pflag saw the option -/
+theorem accepts_explicit_default (given : Bool) : accepts given defaultGroups = accepts false defaultGroups := rfl
+
+/-- pinned variant (before 4cde097, `Flags().Changed("id-groups")`): the default spelled out was accepted, omitted refused -/
+theorem acceptsPinned_explicit_default_fails : acceptsPinned true defaultGroups = true ∧ acceptsPinned false defaultGroups = false := by decide
+
+end Repopulate
 
 end Gotree.C19
